@@ -63,6 +63,8 @@ THEOREMS = [
     # __init__ routing over the regenerated if / elif chain
     'C11.init_empty', 'C11.init_matrix_alone', 'C11.init_routes_agree', 'C11.init_matrix_mixed_refused',
     'C11.init_named_route', 'C11.init_type_error_iff',
+    # compliance path in closed form (no assumption about the inverse) for the cubic system
+    'C11.cubic_mul_cubicS', 'C11.cubicS_mul_cubic', 'C11.cubic_compliance_unique', 'C11.cubic_moduli',
 ]
 PARTIAL = {
     'transform_with_cleanups': 'transform_id/comp/inv, energy and moduli invariance and system_invariant_* are proved for '
